@@ -12,7 +12,7 @@ ID = 'C18'
 RULE = ('perc2okta: every (n, m) with 0 <= n <= m <= M (quick M=3000, thorough M=8000) through one array call per m '
         '(percentages n/m*100 as the pipeline computes them) and scalar calls (int / float / np.float64) on a '
         'sample, against the exact-integer coverage model (both neighbours accepted at exact x.5 ties), monotone in n, '
-        '0 iff n=0, 8 iff n=m; out-of-range scalars and arrays must raise AmpycloudError. okta2code: all integers '
+        '0 iff n=0, 8 iff n=m; the float64 argument array is left unmodified and a second look-up on the same array (and on a reversed view) gives the same oktas; out-of-range scalars and arrays must raise AmpycloudError. okta2code: all integers '
         '-2..11 against the explicit table, non-integer types (float, str, None, np.float64) must raise AmpycloudError. '
         'height2code: a 0.25 ft (thorough 0.05 ft) grid over [0, 1e5) plus the floating-point neighbours of every '
         'multiple of 100 up to 1e4 and of 1000 above, plus Hypothesis floats: three digits, equal to the exact floor '
@@ -112,6 +112,17 @@ def check(case):
     elif fn == 'perc2okta':
         check_perc_scalar(case['n'], case['m'], case.get('kind', 'float'), res)
         res.nontrivial = True
+    elif fn == 'perc2okta-alias':
+        from ampycloud import wmo
+        m = case['m']
+        arg = np.arange(0, m + 1) / m * 100
+        keep = arg.copy()
+        out = wmo.perc2okta(arg)
+        again = wmo.perc2okta(arg)
+        if not np.array_equal(arg, keep) or not np.array_equal(again, out):
+            res.fail('perc2okta', 'perc2okta modifies its argument / answers differently the second time',
+                     f'm={m}: argument changed={not np.array_equal(arg, keep)}')
+        res.nontrivial = True
     elif fn == 'perc2okta-refuse':
         val = case['val']
         check_perc_refusal(np.array(val) if isinstance(val, list) else val, res)
@@ -164,7 +175,20 @@ def run_job(job, ctx):
         n_nt = 0
         for m in job['ms']:
             ns = np.arange(0, m + 1)
-            out = wmo.perc2okta(ns / m * 100)
+            arg = ns / m * 100
+            keep = arg.copy()
+            out = wmo.perc2okta(arg)
+            if m % 7 == 0:
+                # history / aliasing: the caller's array is left alone, and a second look-up on the very same
+                # array object (and on a reversed view of it) gives the same oktas
+                again = wmo.perc2okta(arg)
+                rev = wmo.perc2okta(arg[::-1])
+                if not np.array_equal(arg, keep) or not np.array_equal(again, out) or \
+                        not np.array_equal(rev[::-1], out):
+                    res = Result()
+                    res.fail('perc2okta', 'perc2okta modifies its argument / answers differently the second time',
+                             f'm={m}: argument changed={not np.array_equal(arg, keep)}')
+                    ctx.record({'fn': 'perc2okta-alias', 'm': m}, res)
             stt.cases += m + 1
             stt.evaluations += 1
             outl = out.tolist()
